@@ -267,6 +267,8 @@ pub enum Op {
     PresetScriptDataHash,
     Build,
     BuildTx,
+    /// `build_tx_unsafe`: the transaction without the final balance / fee validation (the size limit still applies)
+    BuildTxUnsafe,
     /// read-only calls (sizes, fees, totals, collections) in the middle of a history; each is made
     /// twice and must answer the same both times
     Observe,
